@@ -17,7 +17,8 @@ TECHNIQUE = 'exhaustive enumeration of meaning-preserving rewrite subsets (and s
 LEVEL_TEXT = ('Every golden source x every subset of at most 1 (quick) / 2 (thorough) of 11 rewrite kinds (mnemonic case up/down, symbol case, blank '
               'runs -> TAB / blanks, comments appended, blank line after every line, comment-only line after every line, CR-LF, label colon added / '
               'removed, INCLUDE wrapper, macro wrapper), and every (line, kind) single-line application for the line-local kinds, is assembled and '
-              'converted; the image must equal the recorded .ori. Applicability predicates are derived from the manual\'s input format rules.')
+              'converted; the image must equal the recorded .ori. Applicability predicates are derived from the manual\'s input format rules.'
+              ' Two more kinds rewrite the first blank run inside the operand field (TAB, TAB+blank) where that field carries sub-fields: RPTC/RPTZ, [condition], OP, and DSP56xxx parallel moves.')
 LEVEL_NOTE = ('Trusted: recorded .ori images; the rewriters. Exemptions (documented in DESIGN.md): lines with an odd number of quote characters for '
               'comment appending, ISA-significant register case (symbol case flips only symbols the source defines), macro wrapper only for '
               'sources without second CPU statement / symbol-defining pseudo instructions / END.')
